@@ -103,14 +103,27 @@ def model_run(ops, init_len, args, dec):
     a = [next(it) for _ in range(init_len)]
     out = []
 
+    class Split(Exception):
+        pass
+
     def index(term):
         n = len(a)
         if dec.implied(z3.Or(term < I(0), term >= I(n))):
             return "oob"
         k = dec.value(term)
         if k is None or not (0 <= k < n):
-            return None
+            # not decided by the path condition: the caller splits the path into the cases index = 0 .. n-1 and out of range
+            e = Split()
+            e.cases = [term == I(j) for j in range(n)] + [z3.Or(term < I(0), term >= I(n))]
+            raise e
         return k
+    try:
+        return _model_ops(ops, a, it, out, index, dec, Split)
+    except Split as sp:
+        return None, sp.cases
+
+
+def _model_ops(ops, a, it, out, index, dec, Split):
     for op in ops:
         if op == "P":
             a.append(next(it))
@@ -167,16 +180,31 @@ def model_run(ops, init_len, args, dec):
                     found = k
                     break
                 if not dec.implied(e != x):
-                    return None, "equality not decided by the path condition"
+                    sp = Split()
+                    sp.cases = [e == x, e != x]
+                    raise sp
             out.append(I(found) if op == "F" else I(1 if found >= 0 else 0))
         elif op == "K":
             out.append(I(len(a) + 1))
         elif op == "D":
             x = next(it)
-            a = [x, x]
+            a[:] = [x, x]
     out.append(I(len(a)))
     out.extend(a)
     return "done", out
+
+
+def compare(st, status, obs, dec):
+    if status != st.status:
+        return "program ends with %s, list model says %s" % (st.status, status)
+    if status == "done":
+        rv = api.result_value(st)
+        elems = st.heap[rv.v][1]
+        if len(elems) != len(obs):
+            return "number of observations differs"
+        if not dec.implied(z3.And(*[e.v == o for e, o in zip(elems, obs)])):
+            return "observations differ from the list model"
+    return None
 
 
 def sequences(t):
@@ -239,21 +267,26 @@ def run(outcome, harnesses):
                 continue
             n_obl += 1
             cond = z3.And(*st.cond) if st.cond else z3.BoolVal(True)
-            dec = Decider(cond, stats)
-            status, obs = model_run(ops, init, inp.leaves, dec)
+            # the list model is replayed under the path condition; where the path condition does not decide an index or an
+            # equality the path is split into the cases and each satisfiable case is compared separately
+            work = [cond]
             problem = None
-            if status is None:
-                outcome.inconc("%s: list model undecided on a path (%s)" % (name, obs))
+            dec = None
+            guard = 0
+            while work and problem is None and guard < 64:
+                guard += 1
+                c = work.pop()
+                dec = Decider(c, stats)
+                if dec.s.check() != z3.sat:
+                    continue
+                status, obs = model_run(ops, init, inp.leaves, dec)
+                if status is None:
+                    work.extend(z3.And(c, extra) for extra in obs)
+                    continue
+                problem = compare(st, status, obs, dec)
+            if guard >= 64:
+                outcome.inconc("%s: list model needs more than 64 case splits on one path" % name)
                 continue
-            if status != st.status:
-                problem = "program ends with %s, list model says %s" % (st.status, status)
-            elif status == "done":
-                rv = api.result_value(st)
-                elems = st.heap[rv.v][1]
-                if len(elems) != len(obs):
-                    problem = "number of observations differs"
-                elif not dec.implied(z3.And(*[e.v == o for e, o in zip(elems, obs)])):
-                    problem = "observations differ from the list model"
             if problem is None:
                 n_hold += 1
                 continue
